@@ -40,6 +40,7 @@ class LiteralInterp(Interp):
         summ = dict(kw.pop("summaries", None) or {})
         self.files = dict(files or {})
         summ.setdefault("builtins.open", self._open)
+        kw.setdefault("max_depth", 40)  # a recursive-descent parser is deep by construction; the step bound ends a runaway
         super().__init__(prog, summaries=summ, **kw)
         self._steps = 0
 
